@@ -35,6 +35,7 @@ type Program struct {
 	extSpecs   map[string]*FuncContract // trusted contracts for functions outside the module
 	sweeps     []sweepSpec
 	mapOrders  []mapOrderSpec
+	lockSpecs  []mapOrderSpec
 	constGlobals map[*ssa.Global]*constGlobalInfo
 	fieldInitOnly map[string]bool
 	allFuncs   map[*ssa.Function]bool
@@ -198,6 +199,7 @@ type FuncContract struct {
 	ParamNames []string
 	InvParams []string
 	Named     bool            // ghost function kept as a named SMT function (clean quantifier triggers)
+	LockProps []string        // properties the lock-discipline obligations belong to
 	MapOrder  []string        // properties the map-iteration order obligations belong to
 	Reveal    map[string]bool // tags of opaque callee ensures this function's proofs use
 }
@@ -259,6 +261,7 @@ func loadProgram(repo string) (*Program, error) {
 	p.resolveAliases()
 	p.applySweeps()
 	p.applyMapOrder()
+	p.applyLockSpecs()
 	p.applyFuncTypeContracts()
 	p.applyTypeInvs()
 	p.analyseGlobals()
@@ -392,7 +395,7 @@ func representable(t types.Type, depth int) bool {
 
 var clauseKeywords = map[string]bool{"func": true, "requires": true, "ensures": true, "loop": true, "arith": true,
 	"safety": true, "inline": true, "pure": true, "trusted": true, "skip": true, "ghost": true, "lemma": true,
-	"modifies": true, "note": true, "opaque": true, "sweep": true, "typeinv": true, "noinv": true, "valueinv": true, "params": true, "noloopinv": true, "define": true, "reveal": true, "maporder": true, "named": true}
+	"modifies": true, "note": true, "opaque": true, "sweep": true, "typeinv": true, "noinv": true, "valueinv": true, "params": true, "noloopinv": true, "define": true, "reveal": true, "maporder": true, "named": true, "lockdiscipline": true}
 
 func (p *Program) parseContracts(pk *packages.Package) error {
 	for i, f := range pk.Syntax {
@@ -486,6 +489,17 @@ func (p *Program) parseContractFile(pkgName string, f *ast.File, fname string, e
 						continue
 					}
 					p.sweeps = append(p.sweeps, sweepSpec{pkg: pkgName, prop: ws[0], file: fn, dir: filepath.Dir(fname), excl: excl})
+				}
+				cur = nil
+				continue
+			}
+			if word == "lockdiscipline" {
+				ws := strings.Fields(rest)
+				if len(ws) < 2 {
+					return fmt.Errorf("%s: lockdiscipline needs a property and file names", where)
+				}
+				for _, fn := range ws[1:] {
+					p.lockSpecs = append(p.lockSpecs, mapOrderSpec{pkg: pkgName, prop: ws[0], file: fn, dir: filepath.Dir(fname)})
 				}
 				cur = nil
 				continue
